@@ -44,7 +44,7 @@ func runC06(c *core.Ctx) {
 	if m.Global == nil {
 		return
 	}
-	total, proven := panicInventory(c, "C06.R1", c06Scope(c), c06Discharger(c, m))
+	total, proven := panicInventory(c, "C06.R1", c06Scope(c), c06Discharger(c, m, "C06.R1"))
 	c.Note("panic inventory: %d sites, %d discharged", total, proven)
 	if total < 40 {
 		c.Fail("C06.R1", "instance-floor", 0, sprintf("only %d panic-capable sites enumerated in the server closure", total))
@@ -59,7 +59,7 @@ func runC06(c *core.Ctx) {
 
 // ---------------------------------------------------------------- R1 dischargers
 
-func c06Discharger(c *core.Ctx, m *serverModel) Discharger {
+func c06Discharger(c *core.Ctx, m *serverModel, rule string) Discharger {
 	assumed := map[string]bool{}
 	assume := func(s string) {
 		if !assumed[s] {
@@ -67,8 +67,8 @@ func c06Discharger(c *core.Ctx, m *serverModel) Discharger {
 			c.Assume(s)
 		}
 	}
-	tableOK, tableWhy := dispatchTableComplete(c, m)
-	kindsOK, kindsWhy := kindStoresAreConstants(c, m)
+	tableOK, tableWhy := dispatchTableComplete(c, m, rule)
+	kindsOK, kindsWhy := kindStoresAreConstants(c, m, rule)
 	return func(fn *ssa.Function, s PanicSite) (bool, string) {
 		name := facts.FuncName(fn)
 		switch s.Kind {
@@ -207,26 +207,26 @@ func isDispatchElem(v ssa.Value, m *serverModel) bool {
 }
 
 // dispatchTableComplete: every declared Kind has a non-nil handler and fits the table.
-func dispatchTableComplete(c *core.Ctx, m *serverModel) (bool, string) {
+func dispatchTableComplete(c *core.Ctx, m *serverModel, rule string) (bool, string) {
 	if len(m.Kinds) == 0 {
 		return false, "no ocirequest.Kind constants found"
 	}
 	for name, k := range m.Kinds {
 		if k < 0 || k >= m.TableLen {
-			c.Fail("C06.R1", "dispatch/"+name, m.Global.Pos(), sprintf("request kind %s (%d) is outside the dispatch table (len %d): the server panics on such a request", name, k, m.TableLen))
+			c.Fail(rule, "dispatch/"+name, m.Global.Pos(), sprintf("request kind %s (%d) is outside the dispatch table (len %d): the server panics on such a request", name, k, m.TableLen))
 			return false, "kind " + name + " outside the table"
 		}
 		if m.Handlers[k] == nil {
-			c.Fail("C06.R1", "dispatch/"+name, m.Global.Pos(), "request kind "+name+" has no handler in the dispatch table: the server calls a nil function for such a request")
+			c.Fail(rule, "dispatch/"+name, m.Global.Pos(), "request kind "+name+" has no handler in the dispatch table: the server calls a nil function for such a request")
 			return false, "kind " + name + " has no handler"
 		}
-		c.OK("C06.R1", "dispatch/"+name, m.Handlers[k].Pos(), "handled by "+facts.FuncName(m.Handlers[k]))
+		c.OK(rule, "dispatch/"+name, m.Handlers[k].Pos(), "handled by "+facts.FuncName(m.Handlers[k]))
 	}
 	return true, sprintf("table of %d entries has a non-nil handler for each of the %d declared kinds", m.TableLen, len(m.Kinds))
 }
 
 // kindStoresAreConstants: in ocirequest every store to Request.Kind is a declared constant.
-func kindStoresAreConstants(c *core.Ctx, m *serverModel) (bool, string) {
+func kindStoresAreConstants(c *core.Ctx, m *serverModel, rule string) (bool, string) {
 	n := 0
 	for _, fn := range c.P.ModuleFunctions("internal/ocirequest") {
 		for _, b := range fn.Blocks {
@@ -242,11 +242,11 @@ func kindStoresAreConstants(c *core.Ctx, m *serverModel) (bool, string) {
 				n++
 				k, isC := facts.ConstInt(st.Val)
 				if !isC {
-					c.Fail("C06.R1", "kind-store/"+facts.FuncName(fn), st.Pos(), "a non-constant value is stored into Request.Kind")
+					c.Fail(rule, "kind-store/"+facts.FuncName(fn), st.Pos(), "a non-constant value is stored into Request.Kind")
 					return false, "non-constant Kind store in " + facts.FuncName(fn)
 				}
 				if _, known := m.KindNames[k]; !known {
-					c.Fail("C06.R1", "kind-store/"+facts.FuncName(fn), st.Pos(), sprintf("undeclared kind value %d stored into Request.Kind", k))
+					c.Fail(rule, "kind-store/"+facts.FuncName(fn), st.Pos(), sprintf("undeclared kind value %d stored into Request.Kind", k))
 					return false, "undeclared Kind value stored"
 				}
 			}
